@@ -183,7 +183,7 @@ CLAIMED = {
     ),
     "C18": (
         "Coq proof (lock discipline for every fault position and every history of transfers by case analysis / induction; version bookkeeping of the reassembly by induction) + correspondence and fault-injection oracle on real Schedule/Zone objects with a scripted controller",
-        "13 theorems in coq/props/C18.v about coq/model/M_Transfer.v and M_SchedCache.v (THE ZONE'S OWN MEMORY of its schedule -- _full_schedule / _sched_ver / _global_ver and the system's cached change counter against the controller's schedule and counter, under fetches and WRITES that fail at any exchange (before the controller has the whole set; after it has committed, the last reply lost; at the version query that follows), changes by others and overheard counters: in every reachable state the readings never run ahead of the controller and whenever the zone's version says 'current' what it remembers IS the controller's schedule (C18_cache_invariant), so a forced fetch that returns, returns the controller's schedule (C18_forced_fetch_is_current); remembering the new schedule BEFORE sending it is refuted with the three-step history (C18_early_assignment_refuted); this part is tied to the code by the fault-injection oracle on real Schedule objects (failed writes followed by forced / unforced fetches with nothing changing on the controller), not by a state-by-state correspondence; OVERHEARD traffic, Schedule._handle_msg: acknowledgements of schedule writes -- this gateway's or "
+        "13 theorems in coq/props/C18.v about coq/model/M_Transfer.v and M_SchedCache.v (THE ZONE'S OWN MEMORY of its schedule -- _full_schedule / _sched_ver / _global_ver and the system's cached change counter against the controller's schedule and counter, under fetches and WRITES that fail at any exchange (before the controller has the whole set; after it has committed, the last reply lost; at the version query that follows), changes by others and overheard counters: in every reachable state the readings never run ahead of the controller and whenever the zone's version says 'current' what it remembers IS the controller's schedule (C18_cache_invariant), so a forced fetch that returns, returns the controller's schedule (C18_forced_fetch_is_current); remembering the new schedule BEFORE sending it is refuted with the three-step history (C18_early_assignment_refuted); tied to the code state by state: random histories of fetches / forced fetches / writes / changes with one exchange failing anywhere (raising, never answering, its reply lost after the controller acted) on real Schedule objects, the remembered schedule, both version readings, the controller's schedule and counter compared with the model after every step; OVERHEARD traffic, Schedule._handle_msg: acknowledgements of schedule writes -- this gateway's or "
         "another's -- and fragments arriving while the zone's own transfer holds the lock change nothing; hearing ANY traffic is feeding the reassembly exactly the "
         "fragments among it, so nothing but a fragment ever enters the set (fix 920e60e; tied to the real _handle_msg on real RP / I 0404 messages under the three lock "
         "states, and anchored in the source by AST); = _obtain_lock/_release_lock around Schedule._get_schedule / "
